@@ -339,7 +339,43 @@ def op_opt_fault(env: Env, op: dict) -> dict:
     return ev
 
 
+def op_exc_min(env: Env, op: dict) -> dict:
+    """in-process minimisation of a crashing (program, mask): statements, then traits, then declarations,
+    keeping the same outcome class.  Exceptions are deterministic in the input (else C17 reports)."""
+    from sim import workload
+    from sim.minimize import ddmin
+
+    tgt = dict(env.targets[op["t"]])
+    want = op["outcome"]
+
+    def outcome(text, mask, inp, out):
+        try:
+            prg = env.parse(text)
+        except Exception:  # pylint: disable=broad-exception-caught
+            return None
+        t2 = {"inp": inp, "out": out}
+        ip, opp = env.decls(t2, prg)
+        return env.call(prg, ip, opp, mask, trace=True)["outcome"]
+
+    text, mask, inp, out = tgt["text"], tgt["mask"], tgt["inp"], tgt["out"]
+    if outcome(text, mask, inp, out) != want:
+        return {"outcome": "-", "min": None}
+    for cand in (("auto", "auto"), ([], [])):
+        if (inp, out) != cand and outcome(text, mask, *cand) == want:
+            inp, out = cand
+            break
+    stmts = workload.statements(text)
+    if len(stmts) > 1:
+        stmts = ddmin(stmts, lambda cs: [outcome("\n".join(c) + "\n", mask, inp, out) == want for c in cs])
+        text = "\n".join(stmts) + "\n"
+    for i in range(9):
+        if mask >> i & 1 and outcome(text, mask & ~(1 << i), inp, out) == want:
+            mask &= ~(1 << i)
+    return {"outcome": "-", "min": {"text": text, "mask": mask, "inp": inp, "out": out}}
+
+
 OPS = {
+    "exc_min": op_exc_min,
     "opt": op_opt,
     "opt_abort": op_opt,
     "opt_same_list": op_opt_same_list,
